@@ -25,7 +25,7 @@ def budget(tier):
 
 @st.composite
 def strategy_(draw):
-    spec = draw(gen.map_cases(max_cells=4, max_iter=2))
+    spec = draw(gen.map_cases(max_cells=4, max_iter=2, pooled_markers=True, min_levels=draw(st.sampled_from([1, 2, 3]))))
     variant = draw(st.sampled_from(['ok'] * 7 + ['root_unusable', 'unknown_to_reference', 'no_shared_marker']))
     spec = copy.deepcopy(spec)
     spec['variant'] = variant
